@@ -1,6 +1,6 @@
 """C01: multiplying a measure by a conjugate factor is pointwise multiplication (DESIGN §6-C01)."""
 from ..runner import Registry
-from .common import gen_factor, view_lnf, snapshot, unchanged, FACTOR_CLS
+from .common import gen_factor, view_lnf, snapshot, unchanged, FACTOR_CLS, fresh_result
 
 REG = Registry("C01")
 
@@ -56,6 +56,7 @@ def _mk_binary(ukind, fkind, op, R1, R2, update_full):
         w.check("frame/measure-unchanged", ok, why)
         ok, why = unchanged(f, sf)
         w.check("frame/factor-unchanged", ok, why)
+        fresh_result(w, "frame/result-is-a-new-object", res, u, f)
     return ob
 
 
@@ -70,6 +71,13 @@ def _mk_product(kind, R):
         w.equal("value", val, xp.sum(view_lnf(w, uv, x, R), axis=0, keepdims=True))
         ok, why = unchanged(u, su)
         w.check("frame/operand-unchanged", ok, why)
+        fresh_result(w, "frame/result-is-a-new-object", res, u)
+        if hasattr(res, "normalize") and kind != "pdf":
+            # history: an in-place call on the product must not reach the operand
+            res.normalize()                                          # REAL (in place)
+            ok, why = unchanged(u, su)
+            w.check("frame/operand-unchanged-after-normalising-the-product", ok, why)
+            w.equal("frame/operand-still-evaluates-to-u", u.evaluate_ln(x), view_lnf(w, uv, x, R))
     return ob
 
 
